@@ -119,9 +119,14 @@ def wl_C07(rng, w, cfg, index):
         wts[k] = 0.0
     wts['add_bad'] = 2.5
     wts['fwd'] = 1.2
+    if rng.random() < 0.3:
+        # the statement speaks of every successful add_child: in some runs removals precede the additions judged
+        wts['remove'] = 2.0
+        wts['dot_none'] = 0.6
+        cfg['shape'] = rng.choice(['add_remove_cycles', 'alternate_choice', 'uniform'])
     cfg['weights'] = wts
     cfg['p_ic'] = 0.0
-    cfg['shape'] = rng.choice(['valid_permuted', 'valid_perturbed', 'uniform', 'fill_max', 'alternate_choice', 'uniform'])
+    cfg.setdefault('shape', rng.choice(['valid_permuted', 'valid_perturbed', 'uniform', 'fill_max', 'alternate_choice', 'uniform']))
     return wl_history(rng, w, cfg, index)
 
 
@@ -130,7 +135,7 @@ def wl_C10(rng, w, cfg, index):
     cfg = dict(cfg)
     wts = dict(cfg.get('weights') or {})
     wts.update({'add_bad': 3.0, 'add_foreign': 0.8, 'attr_bad': 0.8, 'value_bad': 0.6, 'remove_foreign': 0.6, 'fwd': 1.0,
-                'remove_stale': 0.8, 'replace': 1.5, 'add_to_leaf': 0.5, 'replace_raw': 0.8,
+                'remove_stale': 0.8, 'replace': 1.5, 'add_to_leaf': 0.5, 'replace_raw': 0.8, 'add_attached': 1.0, 'deep': 1.0,
                 'to_string': 1.5, 'check': 0.6, 'to_string_ic': 0.0, 'check_ic': 0.0})
     cfg['weights'] = wts
     cfg['p_ic'] = 0.0
@@ -445,7 +450,31 @@ def wl_C04(rng, w, cfg, index):
         return rng.choice(pool) if pool else None
 
     def program():
-        if table and rng.random() < 0.5:
+        rel = []
+        for a1, d1 in table:
+            for dd, bb in spec.derived_type_pairs():
+                if d1['type'] == dd and spec.positions_of_type(bb):
+                    rel.append((a1, d1, bb))
+        if rel and rng.random() < 0.8:
+            # the attribute's type restricts another named type: use the *base* type first (a value the derived type
+            # must reject), then offer that value here
+            a1, d1, bb = rng.choice(rel)
+            gb, _x = spec.exemplars(bb)
+            gd, _y = spec.exemplars(d1['type'])
+            cand = [v for v in gb if not any(v == x and type(v) is type(x) for x in gd)]
+            pos = rng.choice(spec.positions_of_type(bb))
+            if cand:
+                v = rng.choice(cand)
+                if pos[0] == 'value':
+                    yield {'op': 'NEW', 'a': 1, 'doc': 'warm', 'c': {'name': pos[1], 'value': v, 'attrs': {}, 'xsd_check': True}}
+                else:
+                    yield {'op': 'NEW', 'a': 1, 'doc': 'warm', 'c': {'name': pos[1], 'value': gen.default_value(pos[1]), 'attrs': {}, 'xsd_check': True}}
+                    if 'warm' in w.docs:
+                        yield {'op': 'ATTR_SET', 'a': 1, 'p': ['warm'], 'name': spec.py_attr_name(pos[2]), 'value': v}
+                yield {'op': 'NEW', 'a': 0, 'doc': 'dr', 'c': {'name': elem, 'value': gen.default_value(elem), 'attrs': {}, 'xsd_check': True}}
+                if 'dr' in w.docs:
+                    yield {'op': 'ATTR_SET', 'a': 0, 'p': ['dr'], 'name': spec.py_attr_name(a1), 'value': v, 'fault': 'rej.bad_attr_value'}
+        elif table and rng.random() < 0.5:
             # another class first, in the same process, given an attribute of the same *name* (tables, enumerations
             # and validation caches are per type: what another type accepted must not leak)
             a0 = rng.choice(table)[0]
@@ -584,6 +613,31 @@ def wl_C15(rng, w, cfg, index):
         if 'dA' not in w.docs or 'dB' not in w.docs:
             return
         A, B = w.docs['dA'], w.docs['dB']
+        if rng.random() < 0.15:
+            # same-named children whose document order differs from their insertion order: add, add, remove the first,
+            # add another; then assign through the shortcut and read back through it
+            multi = [x for x in sub if spec.element_value_exemplars(x)[0] and model.extendable([x, x, x])]
+            if multi:
+                x = rng.choice(multi)
+                gx = spec.element_value_exemplars(x)[0]
+                for j in range(2):
+                    cs = {'name': x, 'value': gx[j % len(gx)], 'attrs': {}, 'xsd_check': True}
+                    yield {'op': 'PAIR', 'step': 'add-another:' + x, 'first': 'explicit',
+                           'explicit': [{'op': 'ADD', 'a': 0, 'p': ['dA'], 'c': cs}], 'shortcut': [{'op': 'ADD', 'a': 1, 'p': ['dB'], 'c': cs}]}
+                ia = [i for i, c in enumerate(A.children) if c.name == x]
+                ib = [i for i, c in enumerate(B.children) if c.name == x]
+                if len(ia) == 2 and len(ib) == 2:
+                    yield {'op': 'PAIR', 'step': 'remove-first:' + x, 'first': 'explicit',
+                           'explicit': [{'op': 'REMOVE', 'a': 0, 'p': ['dA'], 'i': ia[0]}], 'shortcut': [{'op': 'REMOVE', 'a': 1, 'p': ['dB'], 'i': ib[0]}]}
+                    cs = {'name': x, 'value': gx[-1], 'attrs': {}, 'xsd_check': True}
+                    yield {'op': 'PAIR', 'step': 'add-another:' + x, 'first': 'explicit',
+                           'explicit': [{'op': 'ADD', 'a': 0, 'p': ['dA'], 'c': cs}], 'shortcut': [{'op': 'ADD', 'a': 1, 'p': ['dB'], 'c': cs}]}
+                    if sum(1 for c in B.children if c.name == x) > 1:
+                        v2 = gx[0]
+                        yield {'op': 'DOT_SET', 'a': 1, 'p': ['dB'], 'name': x, 'v': {'kind': 'value', 'value': v2}}
+                        if w.events[-1]['r'] == 'ok':
+                            yield {'op': 'DOT_GET', 'a': 1, 'p': ['dB'], 'name': x, 'ryw': v2}
+                        yield {'op': 'DOT_SET', 'a': 0, 'p': ['dA'], 'name': x, 'v': {'kind': 'value', 'value': v2}}
         for k in list(attrs)[:2]:
             yield {'op': 'ATTR_GET', 'a': 1, 'p': [rng.choice(['dA', 'dB'])], 'name': k}
         for _ in range(rng.randint(2, 10)):
